@@ -4,7 +4,6 @@ import (
 	"strings"
 	"testing"
 
-	"exoverif/sim"
 )
 
 // livenessInv counts what the hostile histories got accepted; the oracle itself is the
@@ -23,12 +22,9 @@ func (l *livenessInv) After(m *Machine, a *Action, o Outcome) error {
 	if a.Kind == "nextBlock" && l.hostileAccepted > 0 {
 		l.blocksAfter++
 	}
-	if m.C.ValSetErr != nil && strings.Contains(m.C.ValSetErr.Error(), "empty set") {
-		// every validator left voluntarily: no proof-of-stake chain stays live without
-		// validators; out of the property's scope (see DESIGN.md), the case ends without verdict
-		return &sim.Halt{Phase: "EndBlock", Height: m.C.Height, Value: "validator set emptied itself (out of scope)"}
-	}
-	if m.C.ValSetErr != nil {
+	if m.C.ValSetErr != nil && !strings.Contains(m.C.ValSetErr.Error(), "empty set") {
+		// (an emptied validator set - every validator left or lost its stake - is out of scope:
+		// no proof-of-stake chain stays live without validators; Machine.Step ends such a case)
 		return violation("C11.I2.consensus-would-panic", "validator update rejected by the consensus engine's validator set: %v", m.C.ValSetErr)
 	}
 	return nil
